@@ -20,7 +20,7 @@ from stages import H, U
 from tbf import walk, kids, strip, AnalysisBroken
 
 LEVEL = "other"
-TECHNIQUE = "flag/stage/level-interval/write-set summaries of every executor class from the clang AST, sympy normal forms for the intervals"
+TECHNIQUE = "flag/stage/level-interval/write-set summaries from the clang AST, sympy interval normal forms, executor-state provenance (members vs locals, head-of-stage resets)"
 
 FULL = ["TbfAlgorithm", "TbfAlgorithmTsm", "TbfOpenmpAlgorithm", "TbfOpenmpAlgorithmTsm"]
 TOPTREE = ["TbfAlgorithmPeriodicTopTree", "TbfAlgorithmPeriodicTopTreeTsm"]
